@@ -199,6 +199,11 @@ def main() -> int:
         singles = idx if thorough or sid.startswith("rename") else rr.sample(idx, min(len(idx), 7))
         for i in singles:
             cases.append({"id": f"{sid}:{i}", "text": text, "lines": [i], "options": rr.choice(c04.OPTION_VECTORS[:4])})
+        # the annotated line is the very last one of a file without a final newline
+        stripped = text.rstrip("\n")
+        last = max((i for i in idx if i < len(stripped.split("\n"))), default=None)
+        if last is not None and last == len(stripped.split("\n")) - 1:
+            cases.append({"id": f"{sid}:last_no_newline", "text": stripped, "lines": [last], "options": {}})
         for k in range(2 if thorough else 1):
             sub = rr.sample(idx, min(len(idx), rr.randint(2, 5)))
             cases.append({"id": f"{sid}:subset{k}", "text": text, "lines": sorted(sub), "options": rr.choice(c04.OPTION_VECTORS[:4])})
